@@ -109,11 +109,23 @@ def check_property(prop, tier="quick", seed=0, update_lock=False):
     obs = [o for o, _ in all_obs]
     results = discharge(obs, timeout_ms=timeout)
 
-    # vacuity: the assumptions at each function's entry must not be contradictory
-    vacuity = []
-    for r in fun_results:
-        if r.status != "ok" or not getattr(r, "entry_pc", None):
-            continue
+    # vacuity: path conditions (preconditions + invariants + library assumptions) must not be contradictory
+    from .ctx import Obligation
+    vac_obs = []
+    per_func = {}
+    for ob in obs:
+        per_func.setdefault(ob.func, {})
+        d = per_func[ob.func]
+        if ob.path not in d or len(ob.pc) > len(d[ob.path].pc):
+            d[ob.path] = ob
+    for func, d in per_func.items():
+        picks = sorted(d.values(), key=lambda o: -len(o.pc))[:3 if tier == "quick" else 12]
+        for ob in picks:
+            vac_obs.append(Obligation(ob.name + "/vacuity", "vacuity", ob.func, ob.line, ob.pc, z3.BoolVal(False), ob.path, "False"))
+    vac_res = discharge(vac_obs, timeout_ms=2000 if tier == "quick" else 10000, second=False, want_model=False)
+    vacuity = {"probed": len(vac_obs), "contradictory": [o.name + " path " + o.path for o, r in zip(vac_obs, vac_res) if r["verdict"] == "proved"]}
+    for name in vacuity["contradictory"]:
+        checker_errors.append("vacuity: contradictory assumptions at %s" % name)
     lock = load_lock()
     locked = set(lock.get(prop, []))
     known = load_known()
@@ -195,7 +207,7 @@ def check_property(prop, tier="quick", seed=0, update_lock=False):
         json.dump(lock, open(LOCK, "w"), indent=0, sort_keys=True)
 
     write_evidence(prop, tier, seed, reg, meta, fun_results, all_obs, results, known_hits, violations, undecided,
-                   undecided_obs, checker_errors, rt, time.time() - t0, own, lemmas, axioms)
+                   undecided_obs, checker_errors, rt, time.time() - t0, own, lemmas, axioms, vacuity)
     for l in lines:
         print(l)
     n_ok = sum(1 for r in results if r["verdict"] == "proved")
@@ -266,7 +278,7 @@ def write_rt_replay(prop, f):
 
 
 def write_evidence(prop, tier, seed, reg, meta, fun_results, all_obs, results, known_hits, violations, undecided,
-                   undecided_obs, checker_errors, rt, wall, own, lemmas, axioms):
+                   undecided_obs, checker_errors, rt, wall, own, lemmas, axioms, vacuity=None):
     n = len(results)
     ok = sum(1 for r in results if r["verdict"] == "proved")
     backends = {}
@@ -325,6 +337,7 @@ def write_evidence(prop, tier, seed, reg, meta, fun_results, all_obs, results, k
             "known_findings": sorted({k["what"] for k, _, _ in known_hits}),
             "undecided": undecided + [{"obligation": ob.name, "verdict": r["verdict"]} for ob, r in undecided_obs],
             "checker_errors": checker_errors,
+            "vacuity": vacuity,
             "extraction_drops": "docstrings, annotations, print/logger calls ignored; time.time() is a fresh real; calls are "
                                 "replaced by contracts; constructs outside the subset make the function undecided",
         },
